@@ -1,6 +1,7 @@
 """C16 -- seeded calls are reproducible and independent of the global RNG state.
 
-Correspondence (corr:C16): the SOURCE PROJECTION of the draw trace.  A logging RandomState subclass replaces
+Correspondence (corr:C16): the SOURCE PROJECTION of the draw trace.  (The standard library's module-level random functions and
+an unseeded numpy.random.default_rng() are logged as draws from the global generator too.)  A logging RandomState subclass replaces
 np.random.mtrand._rand (sharing its bit generator, so np.random.get_state() still sees every draw), the module
 level numpy.random functions are routed through it, np.random.RandomState is replaced by the logging class (so
 generators created inside a call by check_random_state(int) are seen) and logging instances are passed as
@@ -86,6 +87,29 @@ def install():
         mod.RandomState = LogRS
     _Installed.saved.append((np.random.mtrand, "_rand", orig))
     np.random.mtrand._rand = G
+    # other process-wide sources of randomness count as "the global generator" in the trace: the module-level functions of the
+    # standard library's random (bound methods of its hidden instance) and numpy.random.default_rng() called without a seed
+    import random as _pyrandom
+
+    def _logged(f):
+        def w(*a, **k):
+            if TRACE.active:
+                TRACE.drawn.append(G)
+            return f(*a, **k)
+        return w
+    for n in dir(_pyrandom):
+        f = getattr(_pyrandom, n)
+        if not n.startswith("_") and n != "getstate" and getattr(f, "__self__", None) is _pyrandom._inst:
+            _Installed.saved.append((_pyrandom, n, f))
+            setattr(_pyrandom, n, _logged(f))
+    real_default_rng = np.random.default_rng
+
+    def default_rng(seed=None, *a, **k):
+        if seed is None and TRACE.active:
+            TRACE.drawn.append(G)
+        return real_default_rng(seed, *a, **k)
+    _Installed.saved.append((np.random, "default_rng", real_default_rng))
+    np.random.default_rng = default_rng
     return G
 
 
@@ -229,6 +253,8 @@ def configs(tier, rng):
                        entry_point="tensorly.random.random_tt"))
         out.append(Cfg(f"random_tr[{sh}]", "E_random_tr", opts_lit(sh, 2), lambda rs, sh=sh: tlr.random_tr(sh, [2] * (len(sh) + 1), random_state=rs), kinds=BAD,
                        entry_point="tensorly.random.random_tr"))
+    out.append(Cfg("random_cp_orth[(4, 3, 5)]", "E_random_cp", opts_lit((4, 3, 5), 2), lambda rs: tlr.random_cp((4, 3, 5), 2, orthogonal=True, random_state=rs),
+                   entry_point="tensorly.random.random_cp"))
     # orthogonal / non-negative random_tucker has its own draw site; backend-level tl.randn / tl.gamma take a `seed`
     out.append(Cfg("random_tucker_orth[(4, 3, 5)]", "E_random_tucker", opts_lit((4, 3, 5), 2), lambda rs: tlr.random_tucker((4, 3, 5), [2, 2, 2], orthogonal=True, random_state=rs),
                    entry_point="tensorly.random.random_tucker"))
@@ -416,6 +442,12 @@ def configs(tier, rng):
             return ls.line_step(3, sl3, [f * 0.9 for f in p2f], np.ones(2), p2f, _parafac2._compute_projections(sl3, p2f, "truncated_svd"), 1e9)
         out.append(Cfg(f"_BroThesisLineSearch.line_step[{svd}]", "(E_estimator E_compute_projections)", opts_lit((), 2, "svd", svd, aux=3), line_step,
                        kinds=BAD, entry_point="tensorly.decomposition._parafac2._BroThesisLineSearch.line_step", rng_free=(svd != "randomized_svd")))
+    def line_step_nn(rs):
+        ls = _parafac2._BroThesisLineSearch(1.0, "randomized_svd", nn_modes=[0, 2], random_state=rs)
+        return ls.line_step(3, sl3, [f * 0.9 for f in p2f], np.ones(2), p2f, _parafac2._compute_projections(sl3, p2f, "truncated_svd"), 1e9)
+    out.append(Cfg("_BroThesisLineSearch.line_step[randomized_svd,nn_modes]", "(E_estimator E_compute_projections)", opts_lit((), 2, "svd", "randomized_svd", aux=3), line_step_nn,
+                   entry_point="tensorly.decomposition._parafac2._BroThesisLineSearch.line_step"))
+    out.append(Cfg("tl.gamma[size=None]", "E_random_tensor", opts_lit(()), lambda rs: tl.gamma(2.0, 1.5, seed=rs), entry_point="tensorly.gamma"))
     out.append(Cfg("check_random_state", "E_check_random_state", opts_lit(), lambda rs: tl.check_random_state(rs) is None, kinds=BAD,
                    entry_point="tensorly.check_random_state"))
 
@@ -519,6 +551,37 @@ def configs(tier, rng):
         ("truncated_svd", lambda: tsvd.truncated_svd(M, 2)),
         ("symeig_svd", lambda: tsvd.symeig_svd(M, 2)),
     ]
+    # a broader sweep of the deterministic part of the library (tensor formats, proximal operators, metrics, solvers,
+    # decompositions with their deterministic defaults): called twice with the global generator perturbed in between
+    from tensorly.tenalg import proximal as prox
+    from tensorly import metrics as MT
+    from tensorly.solvers import nnls as NN
+    ttf = [data((1, 4, 2), 71), data((2, 3, 2), 72), data((2, 5, 1), 73)]
+    trf = [data((2, 4, 2), 74), data((2, 3, 2), 75), data((2, 5, 2), 76)]
+    core3 = data((2, 2, 2), 77)
+    G5 = M.T @ M
+    free += [
+        ("tt_to_tensor", lambda: tl.tt_to_tensor(ttf)), ("tt_to_unfolded", lambda: tl.tt_to_unfolded(ttf, 1)), ("tr_to_tensor", lambda: tl.tr_to_tensor(trf)),
+        ("tucker_to_tensor", lambda: tl.tucker_to_tensor((core3, fs3))), ("tucker_mode_dot", lambda: tl.tucker_tensor.tucker_mode_dot((core3, list(fs3)), data((2, 3), 78), 1, copy=True)),
+        ("cp_normalize", lambda: tl.cp_tensor.cp_normalize((w2, list(fs3)))), ("cp_norm", lambda: tl.cp_tensor.cp_norm((w2, fs3))),
+        ("cp_mode_dot", lambda: tl.cp_tensor.cp_mode_dot((w2, list(fs3)), data((2, 3), 79), 1, copy=True)),
+        ("fold_unfold", lambda: tl.fold(tl.unfold(Xc, 1), 1, Xc.shape)), ("partial_unfold", lambda: tl.partial_unfold(Xc, 1, skip_begin=1)),
+        ("outer", lambda: tenalg.outer([fs3[0][:, 0], fs3[1][:, 0], fs3[2][:, 0]])), ("tensordot", lambda: tenalg.tensordot(Xc, Xc, 3)),
+        ("soft_thresholding", lambda: prox.soft_thresholding(Xc, 0.1)), ("hard_thresholding", lambda: prox.hard_thresholding(M, 3)),
+        ("simplex_prox", lambda: prox.simplex_prox(M, 1.0)), ("monotonicity_prox", lambda: prox.monotonicity_prox(M)),
+        ("unimodality_prox", lambda: prox.unimodality_prox(np.abs(M))), ("l2_prox", lambda: prox.l2_prox(M, 0.5)), ("l2_square_prox", lambda: prox.l2_square_prox(M, 0.5)),
+        ("normalized_sparsity_prox", lambda: prox.normalized_sparsity_prox(M, 2)), ("soft_sparsity_prox", lambda: prox.soft_sparsity_prox(np.abs(M), 1.0)),
+        ("smoothness_prox", lambda: prox.smoothness_prox(M, 0.1)), ("svd_thresholding", lambda: prox.svd_thresholding(M, 0.1)), ("procrustes", lambda: prox.procrustes(M)),
+        ("MSE", lambda: MT.regression.MSE(M, M * 0.9)), ("RMSE", lambda: MT.regression.RMSE(M, M * 0.9)), ("R2_score", lambda: MT.regression.R2_score(M, M * 0.9)),
+        ("correlation", lambda: MT.regression.correlation(M, M * 0.9 + 0.1)), ("congruence_coefficient", lambda: MT.congruence_coefficient(fs3[0], fs3[0][:, ::-1])),
+        ("vonneumann_entropy", lambda: MT.vonneumann_entropy(G5 / np.trace(G5))),
+        ("hals_nnls", lambda: NN.hals_nnls(G5[:, :3], G5, n_iter_max=5)), ("fista", lambda: NN.fista(G5[:, :3], G5, n_iter_max=5)),
+        ("active_set_nnls", lambda: NN.active_set_nnls(G5[:, 0], G5, n_iter_max=5)),
+        ("partial_tucker[svd]", lambda: D.partial_tucker(Xc, [2, 2], modes=[0, 1], n_iter_max=2)), ("non_negative_tucker[svd]", lambda: D.non_negative_tucker(Xc, [2, 2, 2], n_iter_max=2)),
+        ("non_negative_tucker_hals[svd]", lambda: D.non_negative_tucker_hals(Xc, [2, 2, 2], n_iter_max=2)),
+        ("tensor_train_matrix", lambda: D.tensor_train_matrix(data((4, 4), 80).reshape((2, 2, 2, 2)), [1, 2, 1])),
+        ("constrained_parafac[user]", lambda: D.constrained_parafac(Xc, 2, n_iter_max=2, init=user_cp((4, 3, 5), 2), non_negative=True)),
+    ]
     for nm, f in free:
         out.append(Cfg(f"rng_free:{nm}", "E_rng_free", opts_lit(), lambda rs, f=f: f(), kinds=("none",), seedable=False, rng_free=True,
                        entry_point=f"tensorly:{nm}"))
@@ -614,6 +677,7 @@ class Extractor:
         self.modules = {}     # rel -> ast.Module
         self.imports = {}     # rel -> {local name: ("sym", modrel, orig) | ("mod", modrel)}
         self.stars = {}       # rel -> [modrel]   (from X import *)
+        self.aliases = {}     # rel -> (numpy names, numpy.random names, {local: numpy.random function}, entropy modules, entropy functions)
         self.memo, self.stack = {}, []
         self.unresolved, self.flags = [], []
         self.stats = {"callees_resolved_by_qualified_name": 0, "callees_resolved_by_unique_bare_name": 0, "callees_ambiguous": 0}
@@ -638,6 +702,27 @@ class Extractor:
                         if isinstance(m, ast.FunctionDef):
                             self.defs[f"{rel}::{node.name}.{m.name}"] = (rel, m, node.name)
             imp, stars = {}, []
+            # names bound to numpy / numpy.random / a process-wide entropy source other than NumPy's legacy generator
+            # (stdlib random, secrets, os.urandom, numpy.random.default_rng() without a seed), per module
+            np_alias, npr_alias, npr_funs, ent_mods, ent_funs = {"numpy"}, set(), set(), set(), set()
+            for node in ast.walk(tree):
+                if isinstance(node, ast.Import):
+                    for a in node.names:
+                        if a.name == "numpy":
+                            np_alias.add(a.asname or "numpy")
+                        elif a.name == "numpy.random" and a.asname:
+                            npr_alias.add(a.asname)
+                        elif a.name in ("random", "secrets"):
+                            ent_mods.add(a.asname or a.name)
+                elif isinstance(node, ast.ImportFrom) and not node.level:
+                    for a in node.names:
+                        if node.module == "numpy" and a.name == "random":
+                            npr_alias.add(a.asname or "random")
+                        elif node.module in ("numpy.random", "numpy.random.mtrand"):
+                            npr_funs.add((a.asname or a.name, a.name))
+                        elif node.module in ("random", "secrets") or (node.module == "os" and a.name == "urandom"):
+                            ent_funs.add(a.asname or a.name)
+            self.aliases[rel] = (np_alias, npr_alias, dict(npr_funs), ent_mods, ent_funs)
             for node in ast.walk(tree):
                 if isinstance(node, ast.Import):
                     for a in node.names:
@@ -732,6 +817,39 @@ class Extractor:
             if r:
                 return r
         return None
+
+    def norm_dotted(self, rel, d):
+        """dotted name with the module's aliases of numpy / numpy.random expanded (xp.random.rand -> numpy.random.rand)"""
+        if not d:
+            return d
+        np_alias, npr_alias, npr_funs, _, _ = self.aliases.get(rel, ({"numpy"}, set(), {}, set(), set()))
+        parts = d.split(".")
+        if parts[0] in npr_alias:
+            return ".".join(["numpy", "random"] + parts[1:])
+        if len(parts) == 1 and parts[0] in npr_funs:
+            return "numpy.random." + npr_funs[parts[0]]
+        if parts[0] in np_alias or parts[0] == "np":
+            return ".".join(["numpy"] + parts[1:])
+        return d
+
+    def entropy_call(self, rel, c):
+        """a call that reads a process-wide source of randomness other than through a RandomState object: stdlib random /
+        secrets / os.urandom, numpy.random.default_rng() or Generator / SeedSequence built without a seed"""
+        d = _dotted(c.func) or ""
+        _, _, _, ent_mods, ent_funs = self.aliases.get(rel, (set(), set(), {}, set(), set()))
+        parts = d.split(".")
+        unseeded = (not c.args or (isinstance(c.args[0], ast.Constant) and c.args[0].value is None)) and \
+            not any(k.arg in ("seed", "entropy") and not (isinstance(k.value, ast.Constant) and k.value.value is None) for k in c.keywords)
+        if len(parts) == 2 and parts[0] in ent_mods:
+            return not (parts[1] in ("Random", "SystemRandom") and not unseeded)
+        if len(parts) == 1 and parts[0] in ent_funs:
+            return not (parts[0] == "Random" and not unseeded)
+        if d == "os.urandom":
+            return True
+        n = self.norm_dotted(rel, d)
+        if n in ("numpy.random.default_rng", "numpy.random.SeedSequence", "numpy.random.Generator", "numpy.random.PCG64", "numpy.random.MT19937", "numpy.random.Philox", "numpy.random.SFC64"):
+            return unseeded
+        return False
 
     def resolve_dotted(self, rel, parts):
         cur = self.resolve_symbol(rel, parts[0])
@@ -938,7 +1056,7 @@ class _Scope:
             return "PNoneE"
         if isinstance(e, ast.Constant) and isinstance(e.value, int) and not isinstance(e.value, bool):
             return "(PConstE (%d)%%Z)" % e.value
-        if (_dotted(e) or "") in GLOBAL_OBJECTS:
+        if self.ex.norm_dotted(self.rel, _dotted(e) or "") in GLOBAL_OBJECTS:
             return "PGlobE"
         if self.is_check_call(e):
             inner = self.pexp(e.args[0], what)
@@ -1192,9 +1310,12 @@ class _Scope:
             ev = "(PDraw %d%%nat 0%%nat)" % self.vars[parts[0]]
         elif len(parts) == 3 and parts[0] == "self" and parts[1] in SEED_PARAMS and self.param == "self" and last in self.ex.samplers:
             ev = "(PDraw 0%nat 0%nat)"
-        elif ".".join(parts[:-1]) in GLOBAL_OBJECTS and last in drawish:
+        elif self.ex.norm_dotted(self.rel, d).rpartition(".")[0] in GLOBAL_OBJECTS and last in drawish:
             ev = "(PDrawNp 0%nat)"
             self.ex.flags.append((self.where, f"draw on numpy's global generator: {d}"))
+        elif self.ex.entropy_call(self.rel, c):
+            ev = "(PDrawNp 0%nat)"     # not NumPy's legacy generator, but equally outside the control of random_state
+            self.ex.flags.append((self.where, f"process-wide entropy source: {d}"))
         else:
             alts = []
             for cal in self.ex.resolve_call(self.rel, self, c):
@@ -1456,6 +1577,9 @@ def check_config(cfg, seeds, rng, chk, cases, meta, n_perturb=1):
             if kind == "bad":
                 continue
             st_changed = proj[4]
+            if kind in ("int", "inst") and proj[1]:
+                fail("C16_global_untouched", "a call given an integer seed / a RandomState instance drew from a process-wide generator "
+                     "(numpy's global one, the standard library's random, or an unseeded default_rng)", kind, seed)
             if kind == "int":
                 if st_changed:
                     fail("C16_global_untouched", "np.random.get_state() changed by a call with an integer seed", kind, seed)
